@@ -1,100 +1,191 @@
 // h_C06.cpp — harness for C06: a probe subclass of SIS run by the LIBRARY's own
 // filtering thread (boot(); run(); wait()): the probe's run_condition() ends the
-// loop after K steps, its filtering_step() sets the step's skip commands, calls
+// loop after K steps, its filtering_step() issues the step's RAW skip commands
+// (ParticleFilter::skip(name, status); they stay in force), calls
 // SIS::filtering_step() and dumps both particle sets; step_number() is the
-// library's counter (FilteringAlgorithm.cpp: reset to 0, ++ after every step).  With a
-// scripted MeasurementModel (freeze result per step), a scripted
-// LikelihoodModel (vector or invalid per step), DrawParticles over a
-// deterministic StateModel, BootstrapCorrection and a call-logging Resampling
-// whose random offset is mirrored (same engine, seed and order of draws).
-// Operands: init_state (d x N), init_lw (N x 1), lik (K x N), shift (K x d),
-// init_mean (d x N), init_cov (d x d*N), a (1 x 1), words freeze / likvalid (K tokens 0|1),
-// word cmd (K tokens none|prediction|state|correction|all: the skip command in force during the step), int seed.
-// Histories with meta likmodel=gauss use the library's GaussianLikelihood over a
-// linear measurement model (H, Rm, measurements ys (K x m), scale (1 x 1)); there
-// "likvalid" says whether measure() succeeds.  The likelihood vector of every step
-// is read back through BootstrapCorrection::getLikelihood() and printed.
+// library's counter (FilteringAlgorithm.cpp: reset to 0, ++ after every step).
+//
+// Parts under the probe: DrawParticles over a LinearStateModel subclass (the library's
+// four-way LinearStateModel::propagate decides what the skip flags of the state and
+// exogenous models make the motion do), optionally an ExogenousModel attached through
+// StateModel::add_exogenous_model or through the DrawParticles(state, exogenous)
+// constructor; BootstrapCorrection over a scripted MeasurementModel (freeze result per
+// step) and a scripted LikelihoodModel (vector or invalid per step) or the library's
+// GaussianLikelihood over a linear measurement model whose H_k, R_k, measurement y_k and
+// measurement size m_k change from step to step; a call-logging Resampling whose random
+// offset is mirrored (same engine, seed and order of draws).
+//
+// Operands: init_state (d x N), init_lw (N x 1), init_mean (d x N), init_cov (d x d*N); Fs (d x K*d: transition
+// of step k in block k), shift (K x d), off (1 x d: per-particle offset unit), with an exogenous model Gs (d x K*d)
+// and shift2 (K x d); lik (K x N); words freeze / likvalid (K tokens 0|1), cmd (K tokens: "none" or comma-separated
+// raw commands name+ / name-, names prediction state exogenous correction all and anything else), reset (K tokens 0|1:
+// FilteringAlgorithm::reset() is called during that step, so the pass ends after it and the filter is initialised
+// again: re-initialisation r uses the initial matrices with columns rotated by r), likfail (K tokens none|measure|
+// predicted|innovation|cov: which call of the measurement model reports failure); Gaussian histories: Hs (3K x d:
+// rows 3k..3k+m_k-1), Rs (3K x 3), ys (K x 3), word ms (K tokens m_k), scale (1 x 1); int seed.
+// meta: exo = 0 | sm | ctor; life_pred / life_corr / life_res = fresh | moved | vector | assigned (how the part handed
+// to the filter was obtained: hand-written move constructors / assignments), used_* = 1: the source object was used
+// before (words precmd_pred, precmd_corr: commands given to the source; int pre_draws: resampling calls on the source);
+// intrude = 1: inside every callback of the subject's models a twin SIS filter (other data, same shapes) runs a
+// complete prediction + filtering step (vf::intrude); conc = 1: the pure parts are evaluated from three threads.
 #define VF_MAIN
 #include "common.hpp"
 #include <BayesFilters/BootstrapCorrection.h>
 #include <BayesFilters/DrawParticles.h>
+#include <BayesFilters/ExogenousModel.h>
 #include <BayesFilters/GaussianLikelihood.h>
 #include <BayesFilters/LikelihoodModel.h>
+#include <BayesFilters/LinearStateModel.h>
 #include <BayesFilters/MeasurementModel.h>
 #include <BayesFilters/ParticleSetInitialization.h>
 #include <BayesFilters/Resampling.h>
 #include <BayesFilters/SIS.h>
 #include <BayesFilters/StateModel.h>
+#include <BayesFilters/utils.h>
 #include <random>
 
 using namespace bfl;
 using namespace Eigen;
 
-static long g_step = 0;              // index of the filtering step being executed
+static long g_step = 0;              // index of the filtering step being executed (over the whole history)
 static const vf::Case* g_case = nullptr;
+static bool g_intrude = false;
+static std::vector<std::string> g_pre_answers;   // answers to the commands given to the parts before the filter was assembled
 
+static inline void hook() { if (g_intrude) vf::intrude(); }
 static bool flag(const char* name, long k) { return g_case->word(name).at(k) == "1"; }
+static std::string tok(const char* name, long k, const char* dflt) { const auto& w = g_case->word(name); return (long)w.size() > k ? w[k] : std::string(dflt); }
+
+// Every model exists in two versions: the subject's (twin = false: the case's data, lets the intruder in) and the
+// twin's (other data of the same shapes, never calls the intruder).
+static MatrixXd twist(const MatrixXd& m, bool twin, double f) { return twin ? MatrixXd(vf::rotate_cols(m, 1) * f) : m; }
 
 struct ScriptedInit : public ParticleSetInitialization {
+    bool twin; long inits = 0;
+    explicit ScriptedInit(bool t) : twin(t) {}
     bool initialize(ParticleSet& p) override {
-        p.state() = g_case->mat("init_state");
-        p.mean() = g_case->mat("init_mean");
-        p.covariance() = g_case->mat("init_cov");
-        p.weight() = g_case->mat("init_lw");
+        if (!twin) hook();
+        const long r = inits++;
+        const long d = g_case->mat("init_state").rows();
+        p.state() = twist(vf::rotate_cols(g_case->mat("init_state"), r), twin, -1.25);
+        p.mean() = twist(vf::rotate_cols(g_case->mat("init_mean"), r), twin, 0.5);
+        p.covariance() = twist(vf::rotate_cols(g_case->mat("init_cov"), r * d), twin, 2.0);
+        MatrixXd lw = vf::rotate_cols(g_case->mat("init_lw").transpose(), r).transpose();
+        if (twin) lw = vf::rotate_cols(lw.transpose(), 2).transpose();
+        p.weight() = lw;
+        if (!twin) hook();
         return true;
     }
 };
 
-// mot(r, i) = a * cur(r, i) + shift(step, r) + 0.01 * (i + 1)
-struct ScriptedStateModel : public StateModel {
-    void propagate(const Ref<const MatrixXd>& cur, Ref<MatrixXd> prop) override { motion(cur, prop); }
+static MatrixXd block_of(const char* name, long k) {
+    const MatrixXd& A = g_case->mat(name);
+    const long d = A.rows();
+    return A.block(0, k * d, d, d);
+}
+
+// x' = F_k x (+ exogenous part), by the library's LinearStateModel::propagate; motion adds a deterministic "noise"
+struct LinState : public LinearStateModel {
+    bool twin;
+    explicit LinState(bool t) : twin(t) {}
+    MatrixXd getStateTransitionMatrix() override {
+        if (!twin) hook();
+        MatrixXd F = block_of("Fs", g_step);
+        if (twin) F = MatrixXd(F.transpose() * 0.8);
+        return F;
+    }
     void motion(const Ref<const MatrixXd>& cur, Ref<MatrixXd> mot) override {
-        const double a = g_case->mat("a")(0, 0);
+        if (!twin) hook();
+        LinearStateModel::propagate(cur, mot);
         const MatrixXd& shift = g_case->mat("shift");
+        const MatrixXd& off = g_case->mat("off");
         for (long i = 0; i < cur.cols(); i++)
             for (long r = 0; r < cur.rows(); r++) {
-                double v = a * cur(r, i);
-                v = v + shift(g_step, r);
-                v = v + 0.01 * (double)(i + 1);
+                double v = mot(r, i);
+                v = v + (twin ? -0.5 : 1.0) * shift(g_step, r);
+                v = v + off(0, r) * (double)(i + 1);
                 mot(r, i) = v;
             }
+        if (!twin) hook();
     }
     bool setProperty(const std::string&) override { return false; }
     VectorDescription getInputDescription() override { return VectorDescription(g_case->mi("dl"), g_case->mi("dc")); }
     VectorDescription getStateDescription() override { return VectorDescription(g_case->mi("dl"), g_case->mi("dc")); }
 };
 
+struct ScriptedExo : public ExogenousModel {
+    bool twin;
+    explicit ScriptedExo(bool t) : twin(t) {}
+    void propagate(const Ref<const MatrixXd>& cur, Ref<MatrixXd> prop) override {
+        if (!twin) hook();
+        MatrixXd G = block_of("Gs", g_step);
+        if (twin) G = MatrixXd(G.transpose() * -0.7);
+        MatrixXd p = G * cur;
+        const MatrixXd& s2 = g_case->mat("shift2");
+        for (long i = 0; i < p.cols(); i++) for (long r = 0; r < p.rows(); r++) p(r, i) = p(r, i) + (twin ? 2.0 : 1.0) * s2(g_step, r);
+        prop = p;
+        if (!twin) hook();
+    }
+    bool setProperty(const std::string&) override { return false; }
+    VectorDescription getStateDescription() const override { return VectorDescription(g_case->mi("dl"), g_case->mi("dc")); }
+};
+
 struct ScriptedMeasurement : public MeasurementModel {
-    int freeze_calls = 0;
-    bool freeze(const Data&) override { freeze_calls++; return flag("freeze", g_step); }
+    bool twin; int freeze_calls = 0;
+    explicit ScriptedMeasurement(bool t) : twin(t) {}
+    bool freeze(const Data&) override { if (!twin) hook(); freeze_calls++; return twin ? true : flag("freeze", g_step); }
     std::pair<bool, Data> measure(const Data&) const override { return std::make_pair(false, Data()); }
     std::pair<bool, Data> predictedMeasure(const Ref<const MatrixXd>&) const override { return std::make_pair(false, Data()); }
     std::pair<bool, Data> innovation(const Data&, const Data&) const override { return std::make_pair(false, Data()); }
 };
 
-// linear measurement model y = H x + v, v ~ N(0, Rm), serving the case's measurements
+// linear measurement model y = H_k x + v, v ~ N(0, R_k), of size m_k, serving the case's measurements
 struct GaussMeasurement : public ScriptedMeasurement {
+    explicit GaussMeasurement(bool t) : ScriptedMeasurement(t) {}
+    long m() const { return std::stol(g_case->word("ms").at(g_step)); }
+    bool fails(const char* what) const { return !twin && tok("likfail", g_step, "none") == what; }
     std::pair<bool, Data> measure(const Data&) const override {
-        if (!flag("likvalid", g_step)) return std::make_pair(false, Data());
-        return std::make_pair(true, Data(MatrixXd(g_case->mat("ys").row(g_step).transpose())));
+        if (!twin) hook();
+        if (!twin && (!flag("likvalid", g_step) || fails("measure"))) return std::make_pair(false, Data());
+        MatrixXd y = g_case->mat("ys").row(g_step).head(m()).transpose();
+        if (twin) y = MatrixXd(y * -0.6);
+        return std::make_pair(true, Data(std::move(y)));
     }
     std::pair<bool, Data> predictedMeasure(const Ref<const MatrixXd>& cur) const override {
-        MatrixXd p = g_case->mat("H") * cur;
+        if (!twin) hook();
+        if (fails("predicted")) return std::make_pair(false, Data());
+        MatrixXd H = g_case->mat("Hs").block(3 * g_step, 0, m(), cur.rows());
+        if (twin) H = MatrixXd(H * 1.5);
+        MatrixXd p = H * cur;
         return std::make_pair(true, Data(std::move(p)));
     }
     std::pair<bool, Data> innovation(const Data& pred, const Data& meas) const override {
+        if (!twin) hook();
+        if (fails("innovation")) return std::make_pair(false, Data());
         MatrixXd inn = -(any::any_cast<MatrixXd>(pred).colwise() - any::any_cast<MatrixXd>(meas).col(0));
         return std::make_pair(true, Data(std::move(inn)));
     }
-    std::pair<bool, MatrixXd> getNoiseCovarianceMatrix() const override { return std::make_pair(true, g_case->mat("Rm")); }
+    std::pair<bool, MatrixXd> getNoiseCovarianceMatrix() const override {
+        if (!twin) hook();
+        if (fails("cov")) return std::make_pair(false, MatrixXd());
+        MatrixXd R = g_case->mat("Rs").block(3 * g_step, 0, m(), m());
+        if (twin) R = MatrixXd(R * 1.7 + MatrixXd::Identity(m(), m()) * R(0, 0) * 0.3);
+        return std::make_pair(true, R);
+    }
 };
 
 static int g_lik_calls = 0;
 struct ScriptedLikelihood : public LikelihoodModel {
+    bool twin;
+    explicit ScriptedLikelihood(bool t) : twin(t) {}
     std::pair<bool, VectorXd> likelihood(const MeasurementModel&, const Ref<const MatrixXd>&) override {
+        if (twin) return std::make_pair(true, VectorXd(vf::rotate_cols(g_case->mat("lik").row(g_step), 1).transpose() * 0.37 + VectorXd::Constant(g_case->mat("lik").cols(), 0.01)));
+        hook();
         g_lik_calls++;
         if (!flag("likvalid", g_step)) return std::make_pair(false, VectorXd::Zero(1));
-        return std::make_pair(true, VectorXd(g_case->mat("lik").row(g_step).transpose()));
+        VectorXd l = g_case->mat("lik").row(g_step).transpose();
+        hook();
+        return std::make_pair(true, l);
     }
 };
 
@@ -102,7 +193,9 @@ struct CountingGaussianLikelihood : public GaussianLikelihood {
     explicit CountingGaussianLikelihood(double s) : GaussianLikelihood(s) {}
     std::pair<bool, VectorXd> likelihood(const MeasurementModel& m, const Ref<const MatrixXd>& x) override {
         g_lik_calls++;
-        return GaussianLikelihood::likelihood(m, x);
+        std::pair<bool, VectorXd> r = GaussianLikelihood::likelihood(m, x);
+        hook();
+        return r;
     }
 };
 
@@ -112,14 +205,18 @@ struct LoggingResampling : public Resampling {
     double last_u1 = NAN, last_neff = NAN;
     VectorXi last_parents;
     explicit LoggingResampling(unsigned seed) : Resampling(seed), mirror(seed) {}
+    LoggingResampling(LoggingResampling&&) = default;
+    LoggingResampling& operator=(LoggingResampling&&) = default;
     void resample(const ParticleSet& cor, ParticleSet& res, Ref<VectorXi> parents) override {
+        hook();
         resample_calls++;
         std::uniform_real_distribution<double> d(0.0, 1.0 / (int)cor.weight().rows());
         last_u1 = d(mirror);
         Resampling::resample(cor, res, parents);
         last_parents = parents;
+        hook();                        // between the library's resample and its "cor_particle_ = res_particle"
     }
-    double neff(const Ref<const VectorXd>& w) override { neff_calls++; last_neff = Resampling::neff(w); return last_neff; }
+    double neff(const Ref<const VectorXd>& w) override { hook(); neff_calls++; last_neff = Resampling::neff(w); hook(); return last_neff; }
 };
 
 static void dump_set(const std::string& tag, long k, const ParticleSet& s) {
@@ -134,6 +231,20 @@ static void dump_set(const std::string& tag, long k, const ParticleSet& s) {
     vf::out_mat(tag + "cv" + sk, s.covariance());
 }
 
+// issues the raw commands of a token ("none" or "name+,name-,...") through `skip`; returns one answer per command
+static std::vector<std::string> issue(const std::string& cmd, const std::function<bool(const std::string&, bool)>& skip) {
+    std::vector<std::string> ans;
+    if (cmd == "none" || cmd.empty()) return ans;
+    std::stringstream ss(cmd); std::string t;
+    while (std::getline(ss, t, ',')) {
+        if (t.size() < 2) continue;
+        const bool on = t.back() == '+';
+        try { ans.push_back(skip(t.substr(0, t.size() - 1), on) ? "1" : "0"); }
+        catch (const std::exception&) { ans.push_back("T"); }
+    }
+    return ans;
+}
+
 struct ProbeSIS : public SIS {
     using SIS::SIS;
     long K = 0, done = 0;
@@ -141,36 +252,30 @@ struct ProbeSIS : public SIS {
     ScriptedMeasurement* meas = nullptr;
     LoggingResampling* res = nullptr;
     BootstrapCorrection* bc = nullptr;
-    std::string cur_cmd = "none";
     bool run_condition() override { return done < K; }
     bool initialization_step() override {
         vf::Entry e("SIS::initialization_step");
         init_ok = SIS::initialization_step();
         return init_ok;
     }
-    // one step: the skip command of this step is issued (the previous one withdrawn), then the library's step runs
     void filtering_step() override {
         const long k = done;
         g_step = k;
         const std::string sk = std::to_string(k);
         vf::out_int("lstep" + sk, (long)step_number());          // the library's counter, before its increment
-        const std::string cmd = g_case->word("cmd").at(k);       // none | prediction | state | correction | all
-        if (cmd.find('+') != std::string::npos || cmd.find('-') != std::string::npos) {
-            // raw command history: "name+" / "name-" tokens separated by commas, issued in order; they stay in force
+        {
             vf::Entry e("ParticleFilter::skip");
-            std::stringstream ss(cmd); std::string tok;
-            while (std::getline(ss, tok, ',')) {
-                if (tok.empty()) continue;
-                const bool on = tok.back() == '+';
-                if (!skip(tok.substr(0, tok.size() - 1), on)) vf::out_int("skip_refused" + sk, 1);
+            std::vector<std::string> ans = issue(tok("cmd", k, "none"), [this](const std::string& n, bool on) { return skip(n, on); });
+            if (k == 0) {   // the commands given to the parts before they were handed to the filter are reported with step 0
+                std::vector<std::string> pre = g_pre_answers;
+                pre.insert(pre.end(), ans.begin(), ans.end()); ans = pre;
             }
-        } else if (cmd != cur_cmd) {
-            // older replay files: the command of this step is issued and the previous one withdrawn
-            vf::Entry e("ParticleFilter::skip");
-            if (cur_cmd != "none") skip(cur_cmd, false);
-            if (cmd != "none") skip(cmd, true);
-            cur_cmd = cmd;
+            vf::out_word("ret" + sk, ans.empty() ? std::vector<std::string>{"-"} : ans);
         }
+        StateModel& sm = prediction().getStateModel();
+        vf::out_int("obsP" + sk, prediction().is_skipping() ? 1 : 0);
+        vf::out_int("obsS" + sk, sm.is_skipping() ? 1 : 0);
+        vf::out_int("obsE" + sk, sm.have_exogenous_model() ? (sm.exogenous_model().is_skipping() ? 1 : 0) : -1);
         const int rc0 = res->resample_calls, nc0 = res->neff_calls, lc0 = g_lik_calls, fc0 = meas->freeze_calls;
         { vf::Entry e("SIS::filtering_step"); SIS::filtering_step(); }
         dump_set("c", k, cor_particle_);
@@ -190,9 +295,56 @@ struct ProbeSIS : public SIS {
             vf::out_num("u1_" + sk, res->last_u1);
             vf::out_mat("par" + sk, res->last_parents.cast<double>());
         }
+        if (tok("reset", k, "0") == "1") { vf::Entry e("FilteringAlgorithm::reset"); reset(); }
         ++done;
     }
 };
+
+// the intruder's filter: other data, same shapes; one call = a prediction and a complete filtering step
+struct TwinSIS : public SIS {
+    using SIS::SIS;
+    long calls = 0;
+    void start() { SIS::initialization_step(); }
+    void once() {
+        static const char* names[] = {"all", "correction", "prediction", "state", "exogenous"};
+        skip(names[calls % 5], (calls / 5) % 2 == 0);
+        prediction().predict(cor_particle_, pred_particle_);
+        SIS::filtering_step();
+        calls++;
+    }
+};
+
+// ---- how a part was obtained ----
+
+// T obtained from `fresh` by the hand-written move operations: moved = T(std::move(fresh)); vector = element of a
+// std::vector<T> that is relocated by growth, then moved out; assigned = spare = std::move(fresh)
+template <typename T>
+static std::unique_ptr<T> obtain(std::unique_ptr<T> fresh, const std::string& life, bool used, const std::function<void(T&)>& use,
+                                 const std::function<T*()>& make_spare) {
+    if (used) use(*fresh);
+    if (life == "moved") { vf::Entry e("move constructor"); return std::unique_ptr<T>(new T(std::move(*fresh))); }
+    if (life == "vector") {
+        vf::Entry e("std::vector growth");
+        std::vector<T> v;
+        v.reserve(1);
+        v.emplace_back(std::move(*fresh));
+        for (int i = 0; i < 3; i++) { std::unique_ptr<T> s(make_spare()); v.emplace_back(std::move(*s)); }   // relocations
+        return std::unique_ptr<T>(new T(std::move(v[0])));
+    }
+    return fresh;
+}
+template <typename T>
+static std::unique_ptr<T> obtain_assignable(std::unique_ptr<T> fresh, const std::string& life, bool used, const std::function<void(T&)>& use,
+                                            const std::function<T*()>& make_spare) {
+    if (life == "assigned") {
+        if (used) use(*fresh);
+        vf::Entry e("move assignment");
+        std::unique_ptr<T> s(make_spare());
+        *s = std::move(*fresh);
+        return s;
+    }
+    return obtain<T>(std::move(fresh), life, used, use, make_spare);
+}
 
 int main() {
     vf::Case c;
@@ -201,17 +353,86 @@ int main() {
         const long N = c.mi("N"), dl = c.mi("dl"), dc = c.mi("dc"), K = c.mi("K");
         const unsigned seed = (unsigned)c.integer("seed");
         const bool gauss = c.m("likmodel") == "gauss";
-        ScriptedMeasurement* meas = gauss ? new GaussMeasurement() : new ScriptedMeasurement();
-        LoggingResampling* res = new LoggingResampling(seed);
-        std::unique_ptr<PFPrediction> pred(new DrawParticles(std::unique_ptr<StateModel>(new ScriptedStateModel())));
-        std::unique_ptr<LikelihoodModel> likm;
-        if (gauss) likm.reset(new CountingGaussianLikelihood(c.mat("scale")(0, 0)));
-        else likm.reset(new ScriptedLikelihood());
-        BootstrapCorrection* bc = new BootstrapCorrection(std::unique_ptr<MeasurementModel>(meas), std::move(likm));
-        std::unique_ptr<PFCorrection> corr(bc);
-        ProbeSIS sis((unsigned)N, (std::size_t)dl, (std::size_t)dc, std::unique_ptr<ParticleSetInitialization>(new ScriptedInit()),
-                     std::move(pred), std::move(corr), std::unique_ptr<Resampling>(res));
+        const std::string exo = c.m("exo", "0");
+        g_step = 0; g_lik_calls = 0; g_intrude = false; g_pre_answers.clear();
+        ParticleSet dummy_prev((std::size_t)N, (std::size_t)dl, (std::size_t)dc), dummy_out((std::size_t)N, (std::size_t)dl, (std::size_t)dc);
+        dummy_prev.state().setConstant(0.25);
+        // the parts that accept any particle count are first used with ANOTHER count (N + 2): nothing may be left behind
+        ParticleSet dummy_prev2((std::size_t)N + 2, (std::size_t)dl, (std::size_t)dc), dummy_out2((std::size_t)N + 2, (std::size_t)dl, (std::size_t)dc);
+        dummy_prev2.state().setConstant(-0.5);
+
+        // ---- prediction part ----
+        auto make_pred = [&](bool twin, const std::string& how) -> DrawParticles* {
+            std::unique_ptr<StateModel> sm(new LinState(twin));
+            if (how == "sm") { sm->add_exogenous_model(std::unique_ptr<ExogenousModel>(new ScriptedExo(twin))); return new DrawParticles(std::move(sm)); }
+            if (how == "ctor") return new DrawParticles(std::move(sm), std::unique_ptr<ExogenousModel>(new ScriptedExo(twin)));
+            return new DrawParticles(std::move(sm));
+        };
+        std::unique_ptr<DrawParticles> pred = obtain_assignable<DrawParticles>(
+            std::unique_ptr<DrawParticles>(make_pred(false, exo)), c.m("life_pred", "fresh"), c.mi("used_pred", 0) != 0,
+            [&](DrawParticles& p) {
+                std::vector<std::string> a = issue(tok("precmd_pred", 0, "none"), [&p](const std::string& n, bool on) { return p.skip(n, on); });
+                g_pre_answers.insert(g_pre_answers.end(), a.begin(), a.end());
+                p.predict(dummy_prev2, dummy_out2);
+                p.predict(dummy_prev, dummy_out);
+            },
+            [&]() { DrawParticles* s = make_pred(true, exo); s->skip("prediction", true); return s; });
+
+        // ---- correction part ----
+        ScriptedMeasurement* meas = nullptr;
+        auto make_corr = [&](bool twin, ScriptedMeasurement** mp) -> BootstrapCorrection* {
+            ScriptedMeasurement* m = gauss ? new GaussMeasurement(twin) : new ScriptedMeasurement(twin);
+            if (mp) *mp = m;
+            std::unique_ptr<LikelihoodModel> likm;
+            if (gauss) { if (twin) likm.reset(new GaussianLikelihood(c.mat("scale")(0, 0) * 3.0)); else likm.reset(new CountingGaussianLikelihood(c.mat("scale")(0, 0))); }
+            else likm.reset(new ScriptedLikelihood(twin));
+            return new BootstrapCorrection(std::unique_ptr<MeasurementModel>(m), std::move(likm));
+        };
+        std::unique_ptr<BootstrapCorrection> corr = obtain<BootstrapCorrection>(
+            std::unique_ptr<BootstrapCorrection>(make_corr(false, &meas)), c.m("life_corr", "fresh"), c.mi("used_corr", 0) != 0,
+            [&](BootstrapCorrection& b) {
+                std::vector<std::string> a = issue(tok("precmd_corr", 0, "none"), [&b](const std::string&, bool on) { return b.skip(on); });
+                g_pre_answers.insert(g_pre_answers.end(), a.begin(), a.end());
+                // a correction on the source: its cached likelihood must not reappear on the object obtained from it
+                b.correct(dummy_prev, dummy_out);
+            },
+            [&]() { BootstrapCorrection* s = make_corr(true, nullptr); s->skip(true); return s; });
+        BootstrapCorrection* bc = corr.get();
+
+        // ---- resampling part ----
+        std::unique_ptr<LoggingResampling> resu = obtain_assignable<LoggingResampling>(
+            std::unique_ptr<LoggingResampling>(new LoggingResampling(seed)), c.m("life_res", "fresh"), c.mi("used_res", 0) != 0,
+            [&](LoggingResampling& r) {
+                // draws on the source, alternately with N + 2 and N particles (the mirror follows the particle count it sees)
+                for (long i = 0; i < c.integer("pre_draws"); i++) {
+                    const long n = (i % 2 == 0) ? N + 2 : N;
+                    ParticleSet a((std::size_t)n, (std::size_t)dl, (std::size_t)dc), b((std::size_t)n, (std::size_t)dl, (std::size_t)dc);
+                    a.weight().setConstant(-std::log((double)n));
+                    VectorXi par(n);
+                    r.resample(a, b, par);
+                    (void)r.neff(a.weight());
+                }
+                r.neff_calls = 0;
+                r.resample_calls = 0;
+            },
+            [&]() { LoggingResampling* s = new LoggingResampling(seed + 12345u); return s; });
+        LoggingResampling* res = resu.get();
+
+        ProbeSIS sis((unsigned)N, (std::size_t)dl, (std::size_t)dc, std::unique_ptr<ParticleSetInitialization>(new ScriptedInit(false)),
+                     std::unique_ptr<PFPrediction>(pred.release()), std::unique_ptr<PFCorrection>(corr.release()), std::unique_ptr<Resampling>(resu.release()));
         sis.K = K; sis.meas = meas; sis.res = res; sis.bc = bc;
+
+        // ---- the intruder ----
+        std::shared_ptr<TwinSIS> twin;
+        if (c.mi("intrude", 0) != 0) {
+            twin.reset(new TwinSIS((unsigned)N, (std::size_t)dl, (std::size_t)dc, std::unique_ptr<ParticleSetInitialization>(new ScriptedInit(true)),
+                                   std::unique_ptr<PFPrediction>(make_pred(true, exo)), std::unique_ptr<PFCorrection>(make_corr(true, nullptr)),
+                                   std::unique_ptr<Resampling>(new Resampling(seed + 7u))));
+            twin->start();
+            vf::set_intruder([twin]() { twin->once(); });
+            g_intrude = true;
+        }
+
         g_step = 0; g_lik_calls = 0;
         vf::out_begin(c.id);
         // the filtering thread is the only writer between boot() and wait()
@@ -219,10 +440,48 @@ int main() {
         { vf::Entry e("FilteringAlgorithm::boot"); booted = sis.boot(); }
         sis.run();
         sis.wait();
+        g_intrude = false;
+        if (twin) { vf::out_int("intruder_calls", vf::intruder_state().calls); vf::out_int("twin_steps", twin->calls); }
+        vf::clear_intruder();
         vf::out_int("booted", booted ? 1 : 0);
         vf::out_int("init_ok", sis.init_ok ? 1 : 0);
         vf::out_int("steps_done", sis.done);
         vf::out_int("final_step_number", (long)sis.step_number());
+
+        // ---- the pure parts from three threads at once (other data per thread, same shapes) ----
+        if (c.mi("conc", 0) != 0) {
+            std::vector<std::function<MatrixXd()>> jobs;
+            for (int t = 0; t < 3; t++) {
+                const MatrixXd lw = vf::rotate_cols(c.mat("init_lw").transpose(), t).transpose() * (1.0 + 0.25 * t);
+                const MatrixXd X = vf::rotate_cols(c.mat("init_state"), t) * (1.0 - 0.2 * t);
+                const MatrixXd H = MatrixXd::Ones(1, X.rows()) * (0.5 + t);
+                const double r = 0.3 + 0.4 * t, y = 0.1 * t, N0 = (double)N;
+                jobs.push_back([=]() {
+                    struct M : public MeasurementModel {
+                        MatrixXd H; double r, y;
+                        bool freeze(const Data&) override { return true; }
+                        std::pair<bool, Data> measure(const Data&) const override { return std::make_pair(true, Data(MatrixXd(MatrixXd::Constant(1, 1, y)))); }
+                        std::pair<bool, Data> predictedMeasure(const Ref<const MatrixXd>& cur) const override { return std::make_pair(true, Data(MatrixXd(H * cur))); }
+                        std::pair<bool, Data> innovation(const Data& p, const Data& m) const override {
+                            return std::make_pair(true, Data(MatrixXd(-(any::any_cast<MatrixXd>(p).colwise() - any::any_cast<MatrixXd>(m).col(0))))); }
+                        std::pair<bool, MatrixXd> getNoiseCovarianceMatrix() const override { return std::make_pair(true, MatrixXd(MatrixXd::Constant(1, 1, r))); }
+                    } mm; mm.H = H; mm.r = r; mm.y = y;
+                    GaussianLikelihood gl(1.0 + r);
+                    VectorXd l = static_cast<LikelihoodModel&>(gl).likelihood(mm, X).second;
+                    Resampling rs(11u);
+                    ParticleSet a((std::size_t)N0, (std::size_t)X.rows(), 0), b((std::size_t)N0, (std::size_t)X.rows(), 0);
+                    a.state() = X; a.weight() = lw - MatrixXd::Constant(lw.rows(), 1, utils::log_sum_exp(lw));
+                    VectorXi par((long)N0);
+                    rs.resample(a, b, par);
+                    MatrixXd o(l.size(), 4);
+                    o.col(0) = l; o.col(1) = par.cast<double>(); o.col(2).setConstant(rs.neff(a.weight())); o.col(3).setConstant(utils::log_sum_exp(lw));
+                    return o;
+                });
+            }
+            bool ok;
+            { vf::Entry e("concurrent evaluation of GaussianLikelihood / Resampling / log_sum_exp"); ok = vf::concurrent_same(jobs, 40); }
+            vf::out_int("conc_ok", ok ? 1 : 0);
+        }
         vf::out_end();
     }
     return 0;
